@@ -3,7 +3,7 @@
 From Coq Require Import List NArith ZArith Znumtheory Bool Lia Arith.
 From GmsmVerif Require Import Lib.Outcome EC.ECAffine EC.SM2Curve EC.ECAffineProofs SM3.SM3Spec
      SM2.SM2Bytes SM2.SM2BytesProofs SM2.SM2Spec SM2.DER SM2.DERProofs SM2.SM2Model SM2.SM2SignProofs
-     SM2.SM2Group SM2.SM2EncProofs.
+     SM2.SM2GroupMin SM2.SM2EncProofs.
 Import ListNotations.
 Open Scope Z_scope.
 
@@ -64,7 +64,10 @@ Proof.
 Qed.
 
 Section Kx.
-  Variable F : SM2Facts.
+  Variable Hp : P_prime.
+  Variable Hassoc : Add_assoc.
+  Variable HnG : G_order_divides_n.
+  Variable Hfin : G_multiples_finite.
 
   Lemma api_valid P : sm2_valid P = true -> api_point P = P.
   Proof. apply api_point_valid. Qed.
@@ -80,13 +83,13 @@ Section Kx.
     rewrite !keXHat_is_x_bar by assumption. set (tb := (d + x_bar (fst R) * r) mod sm2_n).
     pose proof n_pos. assert (Htb : 0 <= tb) by (apply Z.mod_pos_bound; lia).
     assert (Hxb : 0 <= x_bar (fst Rpeer)) by (unfold x_bar, kx_w; pose proof (Z.mod_pos_bound (fst Rpeer) (2 ^ 127) ltac:(lia)); lia).
-    assert (Hram : sm2_valid (sm2_mul (x_bar (fst Rpeer)) (Some Rpeer)) = true) by (apply (mul_valid F); assumption).
+    assert (Hram : sm2_valid (sm2_mul (x_bar (fst Rpeer)) (Some Rpeer)) = true) by (apply (mul_valid Hp); assumption).
     assert (Hsum : sm2_valid (sm2_add (Some Ppeer) (sm2_mul (x_bar (fst Rpeer)) (Some Rpeer))) = true)
-      by (apply (add_valid F); assumption).
+      by (apply (add_valid Hp); assumption).
     unfold ScalarMult, Add. rewrite !go_decode_encode.
     rewrite (go_decode_valid Rpeer HR), (go_decode_valid Ppeer HP).
     rewrite (api_valid _ Hram), (api_valid _ Hsum).
-    split; [reflexivity|]. apply (mul_valid F); assumption.
+    split; [reflexivity|]. apply (mul_valid Hp); assumption.
   Qed.
 
   Lemma keyExchange_is_spec klen ida idb pri pub rpri rpub thisISA :
@@ -158,9 +161,9 @@ Section Kx.
     intros Hdp Hrp HR xb Hxb. pose proof n_pos. rewrite Z.mul_1_l.
     set (t := (d + x_bar (fst R) * r) mod sm2_n). assert (Ht : 0 <= t) by (apply Z.mod_pos_bound; lia).
     change (sm2_base_mul rp) with (sm2_mul rp sm2_G). change (sm2_base_mul dp) with (sm2_mul dp sm2_G).
-    rewrite (mul_mul F) by (try apply G_valid; lia).
-    rewrite <- (mul_add F) by (try apply G_valid; nia).
-    rewrite (mul_mul F) by (try apply G_valid; nia). reflexivity.
+    rewrite (mul_mul Hp Hassoc) by (try apply G_valid; lia).
+    rewrite <- (mul_add Hp Hassoc) by (try apply G_valid; nia).
+    rewrite (mul_mul Hp Hassoc) by (try apply G_valid; nia). reflexivity.
   Qed.
 
   Lemma kx_points_agree dA dB rA rB :
@@ -170,15 +173,15 @@ Section Kx.
     kx_point dA rA RA PB RB = kx_point dB rB RB PA RA.
   Proof.
     intros HdA HdB HrA HrB PA PB RA RB. unfold kx_point.
-    unfold PA, PB, RA, RB. rewrite !(ScalarBaseMult_point F) by lia.
-    destruct (ScalarBaseMult_decode F rA HrA) as (_ & HRA & _).
-    destruct (ScalarBaseMult_decode F rB HrB) as (_ & HRB & _).
+    unfold PA, PB, RA, RB. rewrite !(ScalarBaseMult_point Hfin) by lia.
+    destruct (ScalarBaseMult_decode Hp Hfin rA HrA) as (_ & HRA & _).
+    destruct (ScalarBaseMult_decode Hp Hfin rB HrB) as (_ & HRB & _).
     rewrite (kx_point_G dA rA _ dB rB) by (try apply x_bar_nonneg; lia).
     rewrite (kx_point_G dB rB _ dA rA) by (try apply x_bar_nonneg; lia).
     set (xa := x_bar (fst (ScalarBaseMult rA))). set (xb := x_bar (fst (ScalarBaseMult rB))).
     assert (Hxa : 0 <= xa) by apply x_bar_nonneg. assert (Hxb : 0 <= xb) by apply x_bar_nonneg.
     pose proof n_pos.
-    apply (base_mul_cong F).
+    apply (base_mul_cong Hp Hassoc HnG).
     - apply Z.mul_nonneg_nonneg; [apply Z.mod_pos_bound; lia|nia].
     - apply Z.mul_nonneg_nonneg; [apply Z.mod_pos_bound; lia|nia].
     - rewrite Zmult_mod_idemp_l. rewrite (Zmult_mod_idemp_l (dB + xb * rB)). f_equal. ring.
@@ -192,7 +195,7 @@ Section Kx.
   Proof.
     intros HdA HdB HrA HrB PA PB RA RB. unfold kx_spec.
     assert (Hv : forall k, 1 <= k < sm2_n -> sm2_valid (Some (ScalarBaseMult k)) = true).
-    { intros k Hk. rewrite (ScalarBaseMult_point F k Hk). apply (mul_valid F); [apply G_valid|lia]. }
+    { intros k Hk. rewrite (ScalarBaseMult_point Hfin k Hk). apply (mul_valid Hp); [apply G_valid|lia]. }
     unfold RA, RB. rewrite !Hv by assumption. cbn [negb].
     pose proof (kx_points_agree dA dB rA rB HdA HdB HrA HrB) as E. cbv zeta in E. fold PA PB RA RB in E |- *.
     rewrite E. reflexivity.
@@ -200,7 +203,7 @@ Section Kx.
 
   Lemma ScalarBaseMult_in256 k : 1 <= k < sm2_n -> in256 (ScalarBaseMult k).
   Proof.
-    intros Hk. apply valid_in256. rewrite (ScalarBaseMult_point F k Hk). apply (mul_valid F); [apply G_valid|lia].
+    intros Hk. apply valid_in256. rewrite (ScalarBaseMult_point Hfin k Hk). apply (mul_valid Hp); [apply G_valid|lia].
   Qed.
 
   Lemma KeyExchange_agree klen ida idb dA dB rA rB :
@@ -213,7 +216,7 @@ Section Kx.
   Proof.
     intros Hia Hib HdA HdB HrA HrB. unfold KeyExchangeA, KeyExchangeB.
     assert (Hv : forall k, 1 <= k < sm2_n -> sm2_valid (Some (ScalarBaseMult k)) = true).
-    { intros k Hk. rewrite (ScalarBaseMult_point F k Hk). apply (mul_valid F); [apply G_valid|lia]. }
+    { intros k Hk. rewrite (ScalarBaseMult_point Hfin k Hk). apply (mul_valid Hp); [apply G_valid|lia]. }
     assert (H0 : forall k, 1 <= k < sm2_n -> 0 <= fst (ScalarBaseMult k) /\ 0 <= snd (ScalarBaseMult k)).
     { intros k Hk. destruct (ScalarBaseMult_in256 k Hk). lia. }
     destruct (keyExchange_is_spec klen ida idb (key_of dA) (ScalarBaseMult dB) (key_of rA) (ScalarBaseMult rB) true
